@@ -23,6 +23,8 @@ func checkC14(r *Run) {
 	ambientRule(r, "R5")
 	r.Rule("R6", "a Template is shared between goroutines (the cache): apart from the once-written program its fields are only read - nothing stores into a field of a Template it did not just build, and no field's address is handed to other code", 1)
 	sharedTemplateRule(r, "R6")
+	r.Rule("R7", "an execution writes only into scopes of its own: a scope's outer scope is compared, read through (mutex, map lookups, the next link) or the receiver of a method that only reads it - never returned, converted, stored, passed on or written", 1)
+	outerReadOnlyRule(r, "R7")
 }
 
 const (
